@@ -35,6 +35,19 @@ pub mod verif_facade {
                     args.get(0).and_then(|s| s.parse().ok()).unwrap_or(1),
                     args.get(1).and_then(|s| s.parse().ok()).unwrap_or(0),
                 ),
+                "canonspec" => {
+                    let inp = arg(0);
+                    let mut s = unsafe { String::from_utf8_unchecked(inp.clone()) };
+                    crate::canon::canonicalize_path(&mut s);
+                    let once = s.as_bytes().to_vec();
+                    crate::canon::canonicalize_path(&mut s);
+                    let want = crate::canon::spec_canon(&inp);
+                    if once == want && s.as_bytes() == &once[..] && once.len() <= inp.len() && !once.is_empty() {
+                        "ok same".to_string()
+                    } else {
+                        format!("differs: got {:?} twice {:?} reference {:?}", once, s.as_bytes(), want)
+                    }
+                }
                 "load" => crate::load::verif_load_text(arg(0)),
                 "canon" => {
                     let mut s = unsafe { String::from_utf8_unchecked(arg(0)) };
